@@ -141,6 +141,14 @@ demo("Trace_InsertTxn: failed call left a change", "Trace_InsertTxn", [tev[0]], 
 demo("Trace_InsertTxn: count not advanced on commit", "Trace_InsertTxn", [tev[1]], lambda c: c[0]["res"].__setitem__("dcount", 0))
 demo("Trace_InsertTxn: an attempt not observed", "Trace_InsertTxn", [tev[0]], lambda c: c[0]["res"].__setitem__("sites", c[0]["res"]["sites"][:2]))
 
+# ---- Trace_RemoveTxn
+open(scripts, "w").write(json.dumps({"cfg": {"repair": "On", "cells": True, "atomic": False}, "choices": ["k1no", "ok", "fail"], "outcome": "Err",
+                                     "sites": ["tri.remove.after_fill", "tri.remove.after_remove_cells"], "has": True, "changed": False}) + "\n")
+subprocess.run([VD, "removetxn", "--hist", scripts, "--part", "0/1", "--out", os.path.join(W, "r.ndjson")], check=True, stdout=subprocess.DEVNULL)
+rev = [json.loads(l) for l in open(os.path.join(W, "r.ndjson"))]
+demo("Trace_RemoveTxn: failed removal lost the vertex", "Trace_RemoveTxn", [rev[0]], lambda c: c[0]["res"].__setitem__("has", False))
+demo("Trace_RemoveTxn: a removal step not observed", "Trace_RemoveTxn", [rev[0]], lambda c: c[0]["res"].__setitem__("sites", c[0]["res"]["sites"][:1]))
+
 bad = [r for r in results if not (r[1] and r[2])]
 print("selftest:", "OK" if not bad else "FAILED %s" % bad)
 sys.exit(0 if not bad else 1)
